@@ -60,6 +60,11 @@ def build(seed, tier):
     if with_helper and rc.random() < 0.4:
         stmts.append(['from helper import hdouble as hd2'])
         stmts.append(['print(hd2(4))'])
+    late_import = with_helper and rc.random() < 0.5
+    if late_import:
+        # a function that imports the second file when it is CALLED: the module was imported by the program's own
+        # run already, so this must not execute the file again
+        stmts.append(['def hlate(x):', '    import helper', '    return helper.hbump(x) * 100 + helper.hcount'])
     files = dict(prog['files'])
     files['answer.py'] = stmts
     mirrored = rc.random() < 0.4
@@ -100,6 +105,11 @@ def build(seed, tier):
             ops.append({'op': 'call', 'fn': producer,
                         'args_src': [histories.gen_arg(ro, k) for k in histories.LIB_FUNCS.get(producer, [])]})
             ops.append({'op': 'call', 'fn': consumer, 'args_src': ['@ret:%d' % (len(ops) - 1)]})
+    if late_import:
+        for _ in range(ro.randint(1, 2)):
+            ops.append({'op': ro.choice(['call', 'call', 'evaluate']), 'fn': 'hlate', 'args_src': ['3']})
+            if ops[-1]['op'] == 'evaluate':
+                ops[-1] = {'op': 'evaluate', 'expr': 'hlate(2)'}
     if mirrored:
         target = rf.randrange(len(ops))
         if ops[target].get('fn') in ('make_grumpy', 'use_grumpy'):
